@@ -6,6 +6,8 @@
   wrapping 64-bit arithmetic equals the unbounded one whenever the intermediates fit.
 -/
 import GeoProofs.Lemmas.GenKernel
+import GeoProofs.Lemmas.TRANCoordPos
+import GeoProofs.Lemmas.TRANArea
 import GeoModel.Segment
 import GeoModel.Ops.C03
 import GeoProofs.Lemmas.SegmentSpec
@@ -173,5 +175,17 @@ theorem orientation_kernels_eq_source :
     (∀ p s e, ringEdge p s e = Gen.ringEdge p s e) :=
   ⟨GenKernel.orient_eq, GenKernel.lineCoord_eq, GenKernel.lineLine_eq, GenKernel.pointInRect_eq,
    GenKernel.valueInBetween_eq, GenKernel.dist2_eq, GenKernel.crossProd_eq, GenKernel.ringEdge_eq⟩
+
+/-- [T] (translator tie, TRAN) the point-in-ring and point-in-triangle predicates as *whole functions*:
+`coord_pos_relative_to_ring` (empty / one-coordinate prologue, the winding loop over `lines()` with the early
+`return CoordPos::OnBoundary`, the final `winding_number == 0` test), `Triangle::calculate_coordinate_position`
+(orientations of `to_lines()` with the `on_boundary` flag set inside the closure, the `windows(2).all(..)` test) and
+`Triangle: Intersects<Coord>` (`sort()`, `windows(2).any(..)`), regenerated from the Rust bodies on this run, equal
+`ringPos`, `calcTriangle` and `triCoord`. -/
+theorem pointLocation_eq_source :
+    (∀ p ring, ringPos p ring = Gen.coordPosRelativeToRing p ring) ∧
+    (∀ a b c p acc, calcTriangle a b c p acc = Gen.triangleCalc a b c p acc) ∧
+    (∀ a b c p, triCoord a b c p = Gen.triangleCoord a b c p) :=
+  ⟨Geo.Proofs.TRANCoordPos.ringPos_eq, Geo.Proofs.TRANCoordPos.calcTriangle_eq, Geo.Proofs.TRANArea.triCoord_eq⟩
 
 end Geo.Proofs.C03
